@@ -66,6 +66,17 @@ def rule_typecheck_bounds(repo):
 RULES.append(rule_typecheck_bounds)
 
 
+def rule_operand_types_intact(repo):
+    """the emitter decides padding / size casts of zext, trunc, sext and reductions from the operand's type next to the result's
+    type: the type checker must re-size only fresh copies of a type object, never the operand's own (a zext whose operand took
+    the target width is emitted as the bare operand).  Shared with C05 (R-C05-type-alias)."""
+    from rules.c05 import rule_type_objects
+    return rule_type_objects(repo)
+
+
+RULES.append(rule_operand_types_intact)
+
+
 def rule_reserved_names(repo):
     """every declaration generator of the Yosys back-end (port / wire / interface / sub-component wire forms) passes the
     user-chosen identifier through the reserved-word check on every path.  Shared with C13 (R-C13-reserved)."""
